@@ -264,7 +264,7 @@ func (d *Driver) yield(instanceID, site string) {
 		if i, ok := d.gidInst[g]; ok {
 			y.inst = i
 			d.insts[i].parkedYields++
-		} else {
+		} else if !d.plan.Sched.StallUnknown {
 			y.d = 0 // unknown goroutine: pure reordering, never a stall (stalls are accounted per instance)
 		}
 	}
